@@ -60,6 +60,8 @@ seeded/C14-c/patch.diff C14
 seeded/C16-c/patch.diff C16
 seeded/C17-c/patch.diff C17
 selftest/mutants/F29-reintroduce.patch C15
+selftest/mutants/F30-reintroduce.patch C08
+selftest/mutants/F30-reintroduce.patch C07
 seeded/C02-d/patch.diff C02
 seeded/C08-d/patch.diff C08
 seeded/C09-d/patch.diff C04
